@@ -37,7 +37,11 @@ Record obs := {
 Inductive case :=
 | CRun (chain : list (list N))               (* the decided blocks' transactions, by height *)
        (ops : list (hop * obs))
-       (journal : list jev).                 (* the application's call journal at the end *)
+       (journal : list jev)                  (* the application's call journal at the end *)
+| CRunAt (ih : Z)                            (* the same on a chain whose genesis initial_height is ih: *)
+         (chain : list (list N))             (* chain = transactions of heights ih, ih+1, ...; ops and *)
+         (ops : list (hop * obs))            (* journal carry the REAL heights *)
+         (journal : list jev).
 
 Definition pc_code (p : pc) : N :=
   match p with
@@ -155,12 +159,45 @@ Fixpoint run_all (w : world) (ops : list (hop * obs)) : list verdict :=
 Fixpoint final_world (w : world) (ops : list (hop * obs)) : world :=
   match ops with [] => w | (o, _) :: r => final_world (fst (run_hop w o)) r end.
 
+Definition check_run (chain : list (list N)) (ops : list (hop * obs)) (journal : list jev) : verdict :=
+  let jf := jfail (chain_blocks chain) (0, JIdle) journal in
+  first_of (
+    [ viol (negb (jf =? 1)%N) 1; viol (negb (jf =? 2)%N) 2; viol (negb (jf =? 3)%N) 3 ]
+    ++ run_all (world0 capp) ops
+    ++ [ mism (journal_eqb (a_journal (w_app (final_world (world0 capp) ops))) journal) 19 ]).
+
+(* Chains with genesis initial_height ih: the genesis state (LastBlockHeight 0) stands just below
+   the first block, i.e. at ih-1, and "the next height after h" is ih for h = 0.  The clauses of
+   the property (agreement of the three heights, state <= store <= state+1, a block is begun only
+   at the height following the one the application reports, InitChain only at 0) are read with
+   heights counted from that position: 0 stays 0, a height h >= ih becomes h-(ih-1); a height
+   strictly between 0 and ih cannot be the height of anything and becomes negative (every
+   monitor and comparison then fails on it). *)
+Definition rel (ih h : Z) : Z :=
+  if h =? 0 then 0 else if ih <=? h then h - (ih - 1) else -1 - Z.abs h.
+
+Definition rel_obs (ih : Z) (o : obs) : obs :=
+  {| o_outcome := o_outcome o;
+     o_store_h := rel ih (o_store_h o); o_state_h := rel ih (o_state_h o);
+     o_state_hash := o_state_hash o;
+     o_app_h := rel ih (o_app_h o); o_app_hash := o_app_hash o;
+     o_wal := map (rel ih) (o_wal o); o_resp_h := rel ih (o_resp_h o);
+     o_ref := o_ref o; o_trace := o_trace o |}.
+
+Definition rel_hop (ih : Z) (o : hop) : hop :=
+  match o with HRollback k => HRollback (rel ih k) | _ => o end.
+
+Definition rel_jev (ih : Z) (e : jev) : jev :=
+  match e with
+  | JBegin h => JBegin (rel ih h) | JEnd h => JEnd (rel ih h) | JCommit h => JCommit (rel ih h)
+  | JRollback k => JRollback (rel ih k)
+  | _ => e
+  end.
+
 Definition check (c : case) : verdict :=
   match c with
-  | CRun chain ops journal =>
-    let jf := jfail (chain_blocks chain) (0, JIdle) journal in
-    first_of (
-      [ viol (negb (jf =? 1)%N) 1; viol (negb (jf =? 2)%N) 2; viol (negb (jf =? 3)%N) 3 ]
-      ++ run_all (world0 capp) ops
-      ++ [ mism (journal_eqb (a_journal (w_app (final_world (world0 capp) ops))) journal) 19 ])
+  | CRun chain ops journal => check_run chain ops journal
+  | CRunAt ih chain ops journal =>
+    if ih <? 1 then V_mismatch 11
+    else check_run chain (map (fun '(o, ob) => (rel_hop ih o, rel_obs ih ob)) ops) (map (rel_jev ih) journal)
   end.
